@@ -8,7 +8,7 @@ for i in $(seq -w 1 20); do
 import re,sys
 t=open(sys.argv[1]).read()
 m=re.search(r'"failed": \[(.*?)\]\s*\}',t,re.S)
-print("failed="+(" ".join(m.group(1).split())[:600] if m else "NO-SUMMARY "+t[-400:]))
+print("failed="+(" ".join(m.group(1).split())[:600] if m else "NO-SUMMARY "+t[-400:])+(" SKIPPED="+" ".join(re.findall(r"^(\S+) skipped", t, re.M)) if " skipped " in t else ""))
 P
 )" ) &
 done
